@@ -16,25 +16,26 @@ Import ListNotations.
 Fixpoint wview (s : wst) : kvmap :=
   match s with
   | WBase m => m
+  | WMem m c => if c then [] else m
   | WNull => []
   | WSkip p u => sm_filter (fun k => negb (has_prefix p k)) (wview u)
-  | WErr _ _ u | WBatched _ u | WNoKey u | WRO u | WSkipErr _ u | WFall _ u | WCached u => wview u
+  | WErr _ _ u | WBatched _ u | WNoKey u | WRO u | WSkipErr _ u | WFall _ u | WCached _ _ u => wview u
   end.
 
 Fixpoint absent_res (s : wst) (k : key) : res (option val) :=
   match s with
-  | WBase _ | WNull => ROk None
+  | WBase _ | WMem _ _ | WNull => ROk None
   | WSkip p u => if has_prefix p k then ROk None else absent_res u k
   | WNoKey u => match absent_res u k with ROk None => RErr E_NOTFOUND | r => r end
   | WSkipErr l u => match absent_res u k with RErr e => if nmemb e l then ROk None else RErr e | r => r end
-  | WErr _ _ u | WBatched _ u | WRO u | WFall _ u | WCached u => absent_res u k
+  | WErr _ _ u | WBatched _ u | WRO u | WFall _ u | WCached _ _ u => absent_res u k
   end.
 
 Fixpoint wpending (s : wst) : list wop :=
   match s with
-  | WBase _ | WNull => []
+  | WBase _ | WMem _ _ | WNull => []
   | WBatched pend u => pend ++ wpending u
-  | WErr _ _ u | WSkip _ u | WNoKey u | WRO u | WSkipErr _ u | WFall _ u | WCached u => wpending u
+  | WErr _ _ u | WSkip _ u | WNoKey u | WRO u | WSkipErr _ u | WFall _ u | WCached _ _ u => wpending u
   end.
 Definition wsettled (s : wst) : kvmap := kv_write (wbase s) (wpending s).
 
@@ -42,35 +43,37 @@ Definition wsettled (s : wst) : kvmap := kv_write (wbase s) (wpending s).
 Fixpoint no_err (s : wst) : bool :=
   match s with
   | WBase _ | WNull => true
+  | WMem _ c => negb c                       (* the real memorydb, while it is open *)
   | WErr _ _ _ => false
-  | WBatched _ u | WSkip _ u | WNoKey u | WRO u | WSkipErr _ u | WFall _ u | WCached u => no_err u
+  | WBatched _ u | WSkip _ u | WNoKey u | WRO u | WSkipErr _ u | WFall _ u | WCached _ _ u => no_err u
   end.
 (* only layers that neither fail nor swallow: batched, skipkeys, nokeyiserr, readonly, cached *)
 Fixpoint quiet (s : wst) : bool :=
   match s with
   | WBase _ | WNull => true
-  | WErr _ _ _ | WSkipErr _ _ | WFall _ _ => false
-  | WBatched _ u | WSkip _ u | WNoKey u | WRO u | WCached u => quiet u
+  | WMem _ _ | WErr _ _ _ | WSkipErr _ _ | WFall _ _ => false   (* real memorydb: Close empties it, see C23x notes *)
+  | WCached r _ u => (r =? 1)%N && quiet u                      (* the only handle: Close really closes *)
+  | WBatched _ u | WSkip _ u | WNoKey u | WRO u => quiet u
   end.
 (* below the topmost batched layer no buffer holds anything (true of every stack that was built with
    empty buffers and then only used from the top) *)
 Fixpoint all_empty (s : wst) : bool :=
   match s with
-  | WBase _ | WNull => true
+  | WBase _ | WMem _ _ | WNull => true
   | WBatched pend u => match pend with [] => all_empty u | _ => false end
-  | WErr _ _ u | WSkip _ u | WNoKey u | WRO u | WSkipErr _ u | WFall _ u | WCached u => all_empty u
+  | WErr _ _ u | WSkip _ u | WNoKey u | WRO u | WSkipErr _ u | WFall _ u | WCached _ _ u => all_empty u
   end.
 Fixpoint inner_empty (s : wst) : bool :=
   match s with
-  | WBase _ | WNull => true
+  | WBase _ | WMem _ _ | WNull => true
   | WBatched _ u => all_empty u
-  | WErr _ _ u | WSkip _ u | WNoKey u | WRO u | WSkipErr _ u | WFall _ u | WCached u => inner_empty u
+  | WErr _ _ u | WSkip _ u | WNoKey u | WRO u | WSkipErr _ u | WFall _ u | WCached _ _ u => inner_empty u
   end.
 
 (* the keys some skipkeys layer of the stack hides *)
 Fixpoint hidden (s : wst) (k : key) : bool :=
   match s with
-  | WBase _ | WNull => false
+  | WBase _ | WMem _ _ | WNull => false
   | WSkip p u => has_prefix p k || hidden u k
-  | WErr _ _ u | WBatched _ u | WNoKey u | WRO u | WSkipErr _ u | WFall _ u | WCached u => hidden u k
+  | WErr _ _ u | WBatched _ u | WNoKey u | WRO u | WSkipErr _ u | WFall _ u | WCached _ _ u => hidden u k
   end.
